@@ -95,6 +95,7 @@ impl<S: AsyncWrite> AsyncWrite for OpensslInner<S> {
 pub struct AllowStd<S> {
     inner: OpensslInner<S>,
     context: *mut (),
+    shutdown_sent: bool,
 }
 
 impl<S> AllowStd<S> {
@@ -102,6 +103,7 @@ impl<S> AllowStd<S> {
         Self {
             inner: OpensslInner::new(inner),
             context: cx as *mut _ as *mut (),
+            shutdown_sent: false,
         }
     }
 
@@ -123,6 +125,15 @@ impl<S> AllowStd<S> {
 
     pub fn finish_handshake(&mut self) {
         self.inner.handshaken = true;
+    }
+
+    /// Whether the TLS shutdown alert has been handed to the stream already.
+    pub fn shutdown_sent(&self) -> bool {
+        self.shutdown_sent
+    }
+
+    pub fn set_shutdown_sent(&mut self) {
+        self.shutdown_sent = true;
     }
 }
 
